@@ -8,6 +8,9 @@ CHECKS = {
  "C02": ("exploration", "reference-model monitor: flat byte-array model vs exported geometry functions on enumerated + PRNG layouts",
          "Runs the real NewInfo/allocator/NewPieces/CalculateBlocks/section Write+ReadAt/verifier/urldownloader on a boundary lattice of layouts (enumerated) plus PRNG layouts and compares each result with an independent flat byte-array model; every sub-range on each piece's boundary set is read back. Held-on-what-was-observed, not a proof.",
          "Trusts the generator's flat model and own bencode writer; layouts larger than the bounds (<=12 files, <=600 kB) are not explored.", "4/C02"),
+ "C09": ("exploration", "shadow-model monitor over the real PiecePicker driven by a transcription of the torrent's event handlers on PRNG event histories",
+         "Drives the real picker with thousands of PRNG histories (have/bitfield/allowed-fast/choke/unchoke/snub/disconnect/complete/hash-fail/web-seed pick, advance, stop-at, steal, close) in the call order the torrent loop uses and compares a shadow model after every operation: pick legality, one download per peer, end-game limit, web-seed range disjointness, Available(), sequential lowest-index rule.",
+         "Legality of operation orders is a transcription of torrent/*.go handlers; sequential rule asserted only when no web-seed download is active and every file-edge piece is taken, with granted allowed-fast pieces allowed to come first (the client's documented ladder).", "4/C09"),
 }
 PENDING = {}
 props = [json.loads(l) for l in open(os.path.join(V, 'properties.jsonl'))]
